@@ -25,3 +25,12 @@ static inline void verif_mk_cfg(snoopy_configuration_t *c){
   if (c->output_arg_malloced == SNOOPY_FALSE && nondet_bool()) c->output_arg = "";
   VERIF_RI_FIELD(c, syslog_ident_format, syslog_ident_format_malloced, SNOOPY_SYSLOG_IDENT_FORMAT);
 }
+/* what the record owns is released by the destructor (C11); harnesses that do not run it release it here so that
+   --memory-leak-check speaks only about the function under test */
+static inline void verif_free_cfg(snoopy_configuration_t *c){
+  if (c->message_format_malloced == SNOOPY_TRUE) free(c->message_format);
+  if (c->filter_chain_malloced == SNOOPY_TRUE) free(c->filter_chain);
+  if (c->output_malloced == SNOOPY_TRUE) free(c->output);
+  if (c->output_arg_malloced == SNOOPY_TRUE) free(c->output_arg);
+  if (c->syslog_ident_format_malloced == SNOOPY_TRUE) free(c->syslog_ident_format);
+}
